@@ -749,3 +749,163 @@ Proof.
   - split; [reflexivity|]. cbn. split; [reflexivity|]. left. exists 0, 0%Z, false. rewrite seq_length. repeat split; auto. lia.
   - split; [reflexivity|]. cbn. split; [reflexivity|]. right. exists 0, 0%Z, false. rewrite seq_length. repeat split; auto. lia.
 Qed.
+
+(* ================= the headline theorems of C06, for the regenerated code ================= *)
+(* what an observer of the regenerated machine sees, in the vocabulary of the model *)
+Definition pgetq (P : pconfig) (q : nat) : qstate := ggetq (pg P) q.
+Definition pres (P : pconfig) (t : nat) : list result := g_res (ggett (pg P) t).
+Definition pquiet (dflt : nat) (P : pconfig) : Prop := forall t, pstep dflt P t = None.
+Definition pall_closed_empty (P : pconfig) : Prop :=
+  forall q, q < length (gqueues (pg P)) ->
+    qclosed (pgetq P q) = true /\ qvals (pgetq P q) = [] /\ qtok (pgetq P q) = 0.
+
+Section Transfer.
+Variables (dflt : nat) (P : pconfig) (c : config).
+Hypothesis Obs :
+  gqueues (pg P) = queues c /\ gwg (pg P) = wg c /\
+  map g_res (gthreads (pg P)) = map tres (threads c) /\
+  Forall (fun th => g_bad th = false) (gthreads (pg P)) /\
+  (forall t, pstep dflt P t = None <-> step c t = None) /\
+  pfinal P = final c.
+
+Lemma tr_getq q : pgetq P q = getq c q.
+Proof. destruct Obs as (A & _). unfold pgetq, ggetq, getq. now rewrite A. Qed.
+Lemma tr_res t : pres P t = tres (gett c t).
+Proof.
+  destruct Obs as (_ & _ & A & _). unfold pres, ggett, gett.
+  change (g_res (nth t (gthreads (pg P)) dummyg)) with ((fun th => g_res th) (nth t (gthreads (pg P)) dummyg)).
+  rewrite <- (map_nth g_res), A. change (g_res dummyg) with (tres dummyt). apply map_nth.
+Qed.
+Lemma tr_quiet : pquiet dflt P -> quiet c.
+Proof. destruct Obs as (_ & _ & _ & _ & A & _). intros H t. apply A, H. Qed.
+Lemma tr_all_closed : all_closed_empty c -> pall_closed_empty P.
+Proof.
+  destruct Obs as (A & _). intros H q Hq. rewrite tr_getq. apply H. now rewrite <- A.
+Qed.
+End Transfer.
+
+(* Fork: every output is a prefix of the input under every schedule; when nothing can move any more every goroutine has
+   finished, the wait group is back at zero, every queue is closed and empty, every output carried exactly the input *)
+Theorem gen_fork_C06 dflt vs k cap sched : 2 <= k -> 1 <= cap ->
+  exists p, pfork_prog dflt vs k cap = Some p /\
+  let P := prun dflt p sched in
+  (forall j, 1 <= j <= k -> prefix (qapp (pgetq P j)) vs /\ prefix (received (pres P (S j))) vs) /\
+  Forall (fun th => g_bad th = false) (gthreads (pg P)) /\
+  (pquiet dflt P ->
+     pfinal P = true /\ gwg (pg P) = 0 /\ pall_closed_empty P /\
+     forall j, 1 <= j <= k ->
+       qapp (pgetq P j) = vs /\ received (pres P (S j)) = vs /\ told_closed (pres P (S j))).
+Proof.
+  intros Hk Hc. destruct (gen_fork_loaded dflt vs k cap Hk Hc) as (p & Hp & HPR). exists p. split; [exact Hp|]. intros P.
+  assert (Hidle : Forall (fun th => tph th = PIdle \/ tph th = PStuck) (threads (fork_prog vs k cap))).
+  { unfold fork_prog; cbn [threads]. repeat constructor. apply Forall_app. split; [|repeat constructor].
+    apply Forall_forall. intros th Hin. apply in_map_iff in Hin. destruct Hin as (q & <- & _). left; reflexivity. }
+  pose proof (regenerated_machine_is_the_model dflt _ (gen_Fork_helper_is_LFork dflt 0 (seq 1 k) k cap k _) p _ sched Hidle HPR) as Obs.
+  cbv zeta in Obs. fold P in Obs. set (c := run (fork_prog vs k cap) sched) in *.
+  split; [|split].
+  - intros j Hj. rewrite (tr_getq dflt P c Obs), (tr_res dflt P c Obs). apply fork_safe; lia.
+  - apply Obs.
+  - intros Hq. apply (tr_quiet dflt P c Obs) in Hq.
+    destruct (fork_terminate vs k cap ltac:(lia) Hc) as (_ & _ & T). destruct (T sched Hq) as (F & _ & W & A & J).
+    destruct Obs as (O1 & O2 & O3 & O4 & O5 & O6). split; [|split; [|split]].
+    + rewrite O6. exact F.
+    + rewrite O2. exact W.
+    + apply (tr_all_closed dflt P c (conj O1 (conj O2 (conj O3 (conj O4 (conj O5 O6)))))). exact A.
+    + intros j Hj. rewrite (tr_getq dflt P c (conj O1 (conj O2 (conj O3 (conj O4 (conj O5 O6)))))), (tr_res dflt P c (conj O1 (conj O2 (conj O3 (conj O4 (conj O5 O6)))))). apply J. exact Hj.
+Qed.
+
+(* Split: output j gets the values at positions j-1, j-1+k, ... (round robin); all outputs are closed at the end *)
+Theorem gen_split_C06 dflt vs k cap sched : 2 <= k -> 1 <= cap ->
+  exists p, psplit_prog dflt vs k cap = Some p /\
+  let P := prun dflt p sched in
+  (forall j, 1 <= j <= k -> prefix (qapp (pgetq P j)) (rr k (j - 1) vs) /\ prefix (received (pres P (S j))) (rr k (j - 1) vs)) /\
+  Forall (fun th => g_bad th = false) (gthreads (pg P)) /\
+  (pquiet dflt P ->
+     pfinal P = true /\ gwg (pg P) = 0 /\ pall_closed_empty P /\
+     forall j, 1 <= j <= k ->
+       qapp (pgetq P j) = rr k (j - 1) vs /\ received (pres P (S j)) = rr k (j - 1) vs /\ told_closed (pres P (S j))).
+Proof.
+  intros Hk Hc. destruct (gen_split_loaded dflt vs k cap Hk Hc) as (p & Hp & HPR). exists p. split; [exact Hp|]. intros P.
+  assert (Hidle : Forall (fun th => tph th = PIdle \/ tph th = PStuck) (threads (split_prog vs k cap))).
+  { unfold split_prog; cbn [threads]. repeat constructor. apply Forall_app. split; [|repeat constructor].
+    apply Forall_forall. intros th Hin. apply in_map_iff in Hin. destruct Hin as (q & <- & _). left; reflexivity. }
+  pose proof (regenerated_machine_is_the_model dflt _ (gen_Split_helper_is_LSplit dflt 0 (seq 1 k) k cap k _) p _ sched Hidle HPR) as Obs.
+  cbv zeta in Obs. fold P in Obs. set (c := run (split_prog vs k cap) sched) in *.
+  split; [|split].
+  - intros j Hj. rewrite (tr_getq dflt P c Obs), (tr_res dflt P c Obs). apply split_safe; lia.
+  - apply Obs.
+  - intros Hq. apply (tr_quiet dflt P c Obs) in Hq.
+    destruct (split_terminate vs k cap ltac:(lia) Hc) as (_ & _ & T). destruct (T sched Hq) as (F & _ & W & A & J).
+    pose proof Obs as (O1 & O2 & O3 & O4 & O5 & O6). split; [|split; [|split]].
+    + rewrite O6. exact F.
+    + rewrite O2. exact W.
+    + apply (tr_all_closed dflt P c Obs). exact A.
+    + intros j Hj. rewrite (tr_getq dflt P c Obs), (tr_res dflt P c Obs). apply J. exact Hj.
+Qed.
+
+(* Split then Join is the identity on streams *)
+Theorem gen_splitjoin_C06 dflt vs k cap sched : 2 <= k -> 1 <= cap ->
+  exists p, psplitjoin_prog dflt vs k cap = Some p /\
+  let P := prun dflt p sched in
+  (prefix (qapp (pgetq P (S k))) vs /\ prefix (received (pres P 3)) vs) /\
+  Forall (fun th => g_bad th = false) (gthreads (pg P)) /\
+  (pquiet dflt P ->
+     pfinal P = true /\ gwg (pg P) = 0 /\ pall_closed_empty P /\
+     qapp (pgetq P (S k)) = vs /\ received (pres P 3) = vs /\ told_closed (pres P 3)).
+Proof.
+  intros Hk Hc. destruct (gen_splitjoin_loaded dflt vs k cap Hk Hc) as (p & Hp & HPR). exists p. split; [exact Hp|]. intros P.
+  assert (Hidle : Forall (fun th => tph th = PIdle \/ tph th = PStuck) (threads (splitjoin_prog vs k cap))).
+  { unfold splitjoin_prog; cbn [threads]. repeat constructor. }
+  pose proof (regenerated_machine_is_the_model dflt _ (I_splitjoin_closed dflt k cap) p _ sched Hidle HPR) as Obs.
+  cbv zeta in Obs. fold P in Obs. set (c := run (splitjoin_prog vs k cap) sched) in *.
+  split; [|split].
+  - rewrite (tr_getq dflt P c Obs), (tr_res dflt P c Obs). apply splitjoin_safe; lia.
+  - apply Obs.
+  - intros Hq. apply (tr_quiet dflt P c Obs) in Hq.
+    destruct (splitjoin_terminate vs k cap ltac:(lia) Hc) as (_ & _ & T). destruct (T sched Hq) as (F & _ & W & A & J).
+    pose proof Obs as (O1 & O2 & O3 & O4 & O5 & O6). split; [|split; [|split]].
+    + rewrite O6. exact F.
+    + rewrite O2. exact W.
+    + apply (tr_all_closed dflt P c Obs). exact A.
+    + rewrite (tr_getq dflt P c Obs), (tr_res dflt P c Obs). exact J.
+Qed.
+
+(* ---- the wait group is counted before the go statement; Done is deferred first in the goroutine ---- *)
+Theorem gen_wait_group_counted_before_go dflt k cap : 2 <= k -> 1 <= cap ->
+  (exists h, call_fn dflt (prelude_fuel k) gen_Fork (fork_env 0 k) [(cap, cap)] = Some h /\
+             h_wg h = 1 /\ h_log h = [EvAdd 1; EvYield 8%Z; EvGo]) /\
+  (exists h, call_fn dflt (prelude_fuel k) gen_Split (fork_env 0 k) [(cap, cap)] = Some h /\
+             h_wg h = 1 /\ h_log h = [EvAdd 1; EvYield 8%Z; EvGo]) /\
+  (forall i0 ins' Q c0, nth_error Q i0 = Some (c0, cap) ->
+     exists h, call_fn dflt (prelude_fuel 0) gen_Join (join_env (i0 :: ins')) Q = Some h /\
+               h_wg h = 1 /\ h_log h = [EvAdd 1; EvYield 8%Z; EvGo]) /\
+  (exists r1 r2 r3, go_body gen_Fork = PDeferDone :: r1 /\ go_body gen_Split = PDeferDone :: r2 /\ go_body gen_Join = PDeferDone :: r3).
+Proof.
+  intros Hk Hc. repeat split.
+  - destruct (fan_prelude dflt k cap gen_Fork fork_KP (or_introl (conj eq_refl eq_refl)) Hk Hc) as (h & A & _ & _ & _ & B & C). eauto.
+  - destruct (fan_prelude dflt k cap gen_Split split_KP (or_intror (conj eq_refl eq_refl)) Hk Hc) as (h & A & _ & _ & _ & B & C). eauto.
+  - intros i0 ins' Q c0 HQ. destruct (join_prelude dflt i0 ins' Q c0 cap HQ Hc) as (h & A & _ & _ & _ & B & C). eauto.
+  - do 3 eexists. repeat split; reflexivity.
+Qed.
+
+(* non-vacuity: the regenerated machine on a concrete pipeline, run to the end *)
+Example gen_pipes_example :
+  (match psplitjoin_prog dflt0 [10; 11; 12]%Z 2 1 with
+   | Some p => let P := prun dflt0 p (complete_sched false (splitjoin_prog [10; 11; 12]%Z 2 1) 300) in
+               (pfinal P, gwg (pg P), received (pres P 3), map qclosed (gqueues (pg P)))
+   | None => (false, 9, [], [])
+   end) = (true, 0, [10; 11; 12]%Z, [true; true; true; true]) /\
+  ctor_result dflt0 [1; 2; 3]%Z = Some ([dflt0], [CAdd 0 1%Z; CAdd 0 2%Z; CAdd 0 3%Z]).
+Proof. vm_compute. split; reflexivity. Qed.
+
+Print Assumptions gen_ctor_is_the_model.
+Print Assumptions gen_ctor_returns_iff_sized.
+Print Assumptions gen_ctor_default_capacity.
+Print Assumptions gen_MakeFromArray_is_MakeFromSequence.
+Print Assumptions gen_Fork_helper_is_LFork.
+Print Assumptions gen_Split_helper_is_LSplit.
+Print Assumptions gen_Join_helper_is_LJoin.
+Print Assumptions gen_fork_C06.
+Print Assumptions gen_split_C06.
+Print Assumptions gen_splitjoin_C06.
+Print Assumptions gen_wait_group_counted_before_go.
